@@ -31,13 +31,15 @@ Definition did_str (d : did) : bstr := match d with Did _ n => n | DUndef => [] 
 Definition did_key_prefix : bstr := [100; 105; 100; 58; 107; 101; 121; 58].   (* "did:key:" *)
 
 (* caveat values (the harness's mirrored caveat type uses these kinds) *)
-Inductive cval := VLink (l : link) | VInt (z : Z) | VStr (s : bstr) | VList (l : list bstr) | VOtherKind.
+Inductive cval := VLink (l : link) | VInt (z : Z) | VStr (s : bstr) | VList (l : list bstr)
+  | VMap (m : list (bstr * bstr)) | VOtherKind.
 Definition cval_eqb (a b : cval) : bool :=
   match a, b with
   | VLink x, VLink y => x =? y
   | VInt x, VInt y => (x =? y)%Z
   | VStr x, VStr y => beq x y
   | VList x, VList y => list_eqb beq x y
+  | VMap x, VMap y => list_eqb (fun a b => beq (fst a) (fst b) && beq (snd a) (snd b)) x y
   | VOtherKind, VOtherKind => true
   | _, _ => false
   end.
